@@ -125,8 +125,9 @@ func CSVConsumer(opts ...CSVOpt) Consumer {
 					return err
 				}
 
+				// the destination may already hold records (possibly more than we just read): start afresh
+				v.SetLen(0)
 				v.Grow(len(csvWriter.records))
-				v.SetCap(len(csvWriter.records)) // in case Grow was unnessary, trim down the capacity
 				v.SetLen(len(csvWriter.records))
 				reflect.Copy(v, reflect.ValueOf(csvWriter.records))
 
